@@ -302,7 +302,11 @@ impl PeerHandler {
             }
             BroadCmd::SendOwnState { am_choked_map } => {
                 match am_choked_map.get(&self.connection.addr) {
-                    Some(true) => self.connection.send_msg(&Choke::new()).await?,
+                    Some(true) => {
+                        // Choked peer gets no more data, piece is loaded again after next Unchoke
+                        self.piece_tx = None;
+                        self.connection.send_msg(&Choke::new()).await?
+                    }
                     Some(false) => self.connection.send_msg(&Unchoke::new()).await?,
                     None => (),
                 }
